@@ -25,7 +25,8 @@ META = {
         "text": "TLC checks on the property-level queue model that at most one indication is outstanding, that "
                 "notifications continue, and (fair spec, finite model, no constraint) that every accepted indication is "
                 "eventually handed out; the implementation-shaped machine is checked against it (refinement monitor, "
-                "liveness). Every edge of the machine graph of all 14 priority partitions of 1..4 entries plus random deep "
+                "liveness). Every edge of the machine graph of the priority partitions (thorough: all 14 partitions of 1..4 entries into "
+                "<= 3 levels; quick: the 7 partitions of <= 3 entries, 4 entries by random walks) plus random deep "
                 "walks (also sizes 5 and 9) is replayed on the real notification_queue and every call is validated by TLC; "
                 "walks end with 'confirm + dequeue until empty' after which nothing may be pending. At ATT level a real "
                 "bluetoe::server + connection is driven with TLC-generated indicate/notify/poll/confirm sequences "
@@ -41,7 +42,7 @@ META = {
                 "dequeued once, priority order, one-round fairness via an overtaking ghost) and checks the "
                 "implementation-shaped machine (general bit array + next_, Size=1 specialisation, chained levels) against "
                 "it. Every edge of the machine graph of every partition of 1..4 entries into <= 3 levels (single-entry "
-                "levels included) plus random deep walks (also sizes 5, 9 crossing the 4-per-byte boundary) is replayed "
+                "levels included; quick tier: edges for <= 3 entries, 4 entries by random walks) plus random deep walks (also sizes 5, 9 crossing the 4-per-byte boundary) is replayed "
                 "on the real notification_queue<tuple<integral_constant<int,N>...>, Mixin>; every call's result is "
                 "validated by TLC against the property-level model.",
         "note": "bounded: partitions of <= 4 entries exhaustively (edge coverage of the machine model), sizes 5/9 by "
@@ -381,9 +382,10 @@ def queue_level(c, exe, counter):
     # a. every edge of the machine graph, b. random deep walks (both profiles; also the big partitions)
     nwalk, depth = (24, 120) if quick else (400, 200)
     jobs = []
-    for p in SMALL:
+    edge_parts = [q for q in SMALL if sum(q) <= 3] if quick else SMALL      # quick: 7 partitions of <= 3 entries
+    for p in edge_parts:
         jobs.append(("edges", p, False, dict(module="NotifQueueImplGen.tla", cfg=gen_cfg(c, p, "edges", 0, False, "edges_%s.cfg" % pname(p)))))
-    for p in ([q for q in SMALL if sum(q) == 4] if quick else SMALL) + BIG:       # quick: smaller partitions by edges only
+    for p in ([q for q in SMALL if sum(q) == 4] if quick else SMALL) + BIG:       # quick: <= 3 entries by edges only, 4 by walks
         nw = nwalk * 3 if p in BIG else nwalk
         for nomix in ([False, True] if has_single(p) else [False]):
             jobs.append(("walks", p, nomix, dict(module="NotifQueueImplGen.tla",
